@@ -327,6 +327,8 @@ func main() {
 	}
 	// 3. ValidateTransactions' closure
 	vtRows, vtCalls, vtEntries := w.validateTransactions()
+	// 3b. shared slices written without a lock at goroutine-owned indices
+	strided, perIndex := w.ownershipSites()
 
 	if len(w.errs) > 0 {
 		sort.Strings(w.errs)
@@ -418,8 +420,8 @@ func main() {
 	}
 
 	ctxs := contexts(entries, calls)
-	writeLean(out, gosrc, rows, calls, entries, setup, dead, ctxs)
-	b, _ := json.MarshalIndent(map[string]interface{}{"accesses": rows, "calls": calls, "entries": entries, "setup": setup, "dead": dead, "contexts": ctxs, "gosrc": gosrc}, "", " ")
+	writeLean(out, gosrc, rows, calls, entries, setup, dead, ctxs, strided, perIndex)
+	b, _ := json.MarshalIndent(map[string]interface{}{"accesses": rows, "calls": calls, "entries": entries, "setup": setup, "dead": dead, "contexts": ctxs, "gosrc": gosrc, "strided_sites": strided, "per_index_sites": perIndex}, "", " ")
 	if err := os.WriteFile(out+".json", b, 0o644); err != nil {
 		die("%v", err)
 	}
@@ -494,9 +496,9 @@ func contexts(entries []entry, calls []call) []ctx {
 	return res
 }
 
-func writeLean(out, gosrc string, rows []row, calls []call, entries []entry, setup, dead []string, ctxs []ctx) {
+func writeLean(out, gosrc string, rows []row, calls []call, entries []entry, setup, dead []string, ctxs []ctx, strided []stridedSite, perIndex []perIndexSite) {
 	var b strings.Builder
-	b.WriteString("import ZChain.Model.LockSet\n/-!\nGENERATED by harness/cmd/xc44 from chaincore/round, chaincore/block and miner/protocol_block.go — do not edit.\n")
+	b.WriteString("import ZChain.Model.LockSet\nimport ZChain.Model.IndexOwn\n/-!\nGENERATED by harness/cmd/xc44 from chaincore/round, chaincore/block and miner/protocol_block.go — do not edit.\n")
 	b.WriteString("Regenerated by `./check C44` on every run; `Props/C44.lean` decides its theorems over this table.\n")
 	b.WriteString("Names are `nm! \"…\"` (the string's bytes as a natural number, see Model/LockSet.lean).\n-/\nnamespace ZChain.Generated.C44\nopen ZChain.LockSet\n\n")
 	b.WriteString("/-- (function, location, write?, locks of the same object held [name, exclusive?], atomic?, own object?, line) -/\ndef accesses : List Access := [\n")
@@ -585,7 +587,23 @@ func writeLean(out, gosrc string, rows []row, calls []call, entries []entry, set
 		}
 		fmt.Fprintf(&b, "  (nm! %q, [\n    %s])%s\n", g.loc, strings.Join(g.effs, ",\n    "), sep)
 	}
-	b.WriteString("]\n\ndef table : Table := ⟨accesses, calls, entries⟩\n\nend ZChain.Generated.C44\n")
+	b.WriteString("]\n\ndef table : Table := ⟨accesses, calls, entries⟩\n\n")
+	b.WriteString("/-- shared slices written WITHOUT a lock by goroutines that each own a range of indices: (site, loop stride, `end := start +` bound,\nloop limit, aggregator total, aggregator batch size — all as canonical source text —, every structural fact found?) -/\ndef stridedSites : List ZChain.IndexOwn.StridedSite := [\n")
+	for i, s := range strided {
+		sep := ","
+		if i == len(strided)-1 {
+			sep = ""
+		}
+		b.WriteString("  " + leanStrided(s) + sep + "\n")
+	}
+	b.WriteString("]\n\n/-- one goroutine per loop index, writing the shared slices only at its own index: (site, number of such slices) -/\ndef perIndexSites : List (Nat × Nat) := [")
+	for i, s := range perIndex {
+		if i > 0 {
+			b.WriteString(", ")
+		}
+		fmt.Fprintf(&b, "(nm! %q, %d)", s.Name, len(s.Arrays))
+	}
+	b.WriteString("]\n\nend ZChain.Generated.C44\n")
 	if err := os.WriteFile(out, []byte(b.String()), 0o644); err != nil {
 		die("%v", err)
 	}
